@@ -225,6 +225,12 @@ func inlineRound(pkgs []*packages.Package, pinned map[string]bool, overlay map[s
 						}
 					case *ast.IfStmt:
 						call = guardedCall(x)
+					case *ast.AssignStmt:
+						if len(x.Lhs) == 1 && len(x.Rhs) == 1 && (x.Tok == token.ASSIGN || x.Tok == token.DEFINE) {
+							if _, isId := x.Lhs[0].(*ast.Ident); isId {
+								call, _ = x.Rhs[0].(*ast.CallExpr)
+							}
+						}
 					}
 					if call == nil {
 						return
@@ -283,19 +289,52 @@ func inlineRound(pkgs []*packages.Package, pinned map[string]bool, overlay map[s
 	var names []string
 	for o, cd := range cands {
 		ss := sites[o]
-		if len(ss) != 1 || uses[o] != 1 {
+		if len(ss) == 0 || uses[o] != len(ss) {
 			continue
 		}
-		s := ss[0]
-		if s.caller == cd.fd || s.p != cd.p {
+		// several call sites: only for a helper without results called as a statement (each site
+		// becomes a copy of the body; nothing else refers to the helper)
+		if len(ss) > 1 {
+			void := cd.fd.Type.Results == nil || len(cd.fd.Type.Results.List) == 0
+			for _, s := range ss {
+				if _, isExpr := s.stmt.(*ast.ExprStmt); !isExpr {
+					void = false
+				}
+			}
+			if !void || len(ss) > 4 {
+				continue
+			}
+		}
+		var es []inlineEdit
+		var ns []string
+		okAll := true
+		for _, s := range ss {
+			if s.caller == cd.fd || s.p != cd.p {
+				okAll = false
+				break
+			}
+			e, ok := spliceEdit(cd.p, cd.fd, s.caller, s.call, s.stmt, s.list, s.idx, overlay)
+			if !ok {
+				okAll = false
+				break
+			}
+			es = append(es, e)
+			ns = append(ns, funcKey(cd.fd)+" -> "+funcKey(s.caller))
+		}
+		if !okAll {
 			continue
 		}
-		e, ok := spliceEdit(cd.p, cd.fd, s.caller, s.call, s.stmt, s.list, s.idx, overlay)
-		if !ok {
-			continue
+		// the helper itself leaves the view (every use was spliced): its lines become blank lines, so
+		// positions after it stay where they are
+		fset := cd.p.Fset
+		start := cd.fd.Pos()
+		if cd.fd.Doc != nil {
+			start = cd.fd.Doc.Pos()
 		}
-		edits = append(edits, e)
-		names = append(names, funcKey(cd.fd)+" -> "+funcKey(s.caller))
+		ps, pe := fset.Position(start), fset.Position(cd.fd.End())
+		es = append(es, inlineEdit{file: ps.Filename, off: ps.Offset, end: pe.Offset, text: strings.Repeat("\n", pe.Line-ps.Line)})
+		edits = append(edits, es...)
+		names = append(names, ns...)
 	}
 	sort.Strings(names)
 	return edits, names
@@ -317,7 +356,10 @@ func inlinableBody(p *packages.Package, fd *ast.FuncDecl) bool {
 	self := p.TypesInfo.Defs[fd.Name]
 	ast.Inspect(fd.Body, func(n ast.Node) bool {
 		switch x := n.(type) {
-		case *ast.DeferStmt, *ast.GoStmt, *ast.LabeledStmt:
+		case *ast.DeferStmt:
+			// accepted in tail forms only (spliceEdit): the helper's deferred calls then run when the
+			// caller returns, which is when the helper returned, ahead of the caller's own earlier defers
+		case *ast.GoStmt, *ast.LabeledStmt:
 			ok = false
 		case *ast.BranchStmt:
 			if x.Tok == token.GOTO || x.Label != nil {
@@ -347,7 +389,41 @@ func spliceEdit(p *packages.Package, callee, caller *ast.FuncDecl, call *ast.Cal
 	_, isGuard := stmt.(*ast.IfStmt)
 	endStmt := stmt
 	dropLast := false
+	anywhere := false
+	hasDefer := false
+	ast.Inspect(callee.Body, func(n ast.Node) bool {
+		if _, isLit := n.(*ast.FuncLit); isLit {
+			return false
+		}
+		if _, isD := n.(*ast.DeferStmt); isD {
+			hasDefer = true
+		}
+		return true
+	})
+	if hasDefer {
+		// `return f(args)` as a direct statement of the caller's body (not in a loop): one activation
+		if !isRet {
+			return inlineEdit{}, false
+		}
+		direct := false
+		for _, s := range caller.Body.List {
+			if s == stmt {
+				direct = true
+			}
+		}
+		if !direct {
+			return inlineEdit{}, false
+		}
+	}
+	asg, isAssign := stmt.(*ast.AssignStmt)
+	if isAssign {
+		// `x = f(args)`: one result, stored into a temporary by every `return E` of the body
+		if hasDefer || callee.Type.Results == nil || len(callee.Type.Results.List) != 1 || len(callee.Type.Results.List[0].Names) > 0 {
+			return inlineEdit{}, false
+		}
+	}
 	switch {
+	case isAssign:
 	case isGuard:
 		// `if err := f(args); err != nil { return err }` in a caller whose only result is the error: the
 		// callee's error returns become the caller's, its final `return nil` falls through
@@ -376,7 +452,8 @@ func spliceEdit(p *packages.Package, callee, caller *ast.FuncDecl, call *ast.Cal
 			tail = true
 		}
 		if !tail {
-			return inlineEdit{}, false
+			// anywhere else: the callee's (bare) returns become jumps to the end of the splice
+			anywhere = true
 		}
 		// the callee's returns must be bare (they become the caller's)
 		bare := true
@@ -389,7 +466,7 @@ func spliceEdit(p *packages.Package, callee, caller *ast.FuncDecl, call *ast.Cal
 			}
 			return true
 		})
-		if !bare || (caller.Type.Results != nil && len(caller.Type.Results.List) > 0 && idx+1 >= len(list)) {
+		if !bare || (!anywhere && caller.Type.Results != nil && len(caller.Type.Results.List) > 0 && idx+1 >= len(list)) {
 			return inlineEdit{}, false
 		}
 	}
@@ -531,6 +608,89 @@ func spliceEdit(p *packages.Package, callee, caller *ast.FuncDecl, call *ast.Cal
 		}
 	}
 	body := string(src[lb+1 : rb])
+	if isAssign {
+		if !strings.HasPrefix(body, "\n") {
+			return inlineEdit{}, false
+		}
+		resT := info.TypeOf(callee.Type.Results.List[0].Type)
+		if resT == nil {
+			return inlineEdit{}, false
+		}
+		tstr := types.TypeString(resT, func(q *types.Package) string {
+			if q == p.Types {
+				return ""
+			}
+			return q.Name()
+		})
+		off := fset.Position(stmt.Pos()).Offset
+		label, tmp := fmt.Sprintf("_inl%d", off), fmt.Sprintf("_inlr%d", off)
+		type rep struct {
+			at, n int
+			text  string
+		}
+		var reps []rep
+		bad := false
+		ast.Inspect(callee.Body, func(n ast.Node) bool {
+			if _, isLit := n.(*ast.FuncLit); isLit {
+				return false
+			}
+			if r, ok := n.(*ast.ReturnStmt); ok {
+				if len(r.Results) != 1 {
+					bad = true
+					return false
+				}
+				reps = append(reps, rep{fset.Position(r.Pos()).Offset - (lb + 1), 6, "{ " + tmp + " ="})
+				reps = append(reps, rep{fset.Position(r.End()).Offset - (lb + 1), 0, "; break " + label + " }"})
+			}
+			return true
+		})
+		if bad || len(reps) == 0 {
+			return inlineEdit{}, false
+		}
+		sort.Slice(reps, func(i, j int) bool { return reps[i].at > reps[j].at })
+		for _, rp := range reps {
+			if rp.at < 0 || rp.at+rp.n > len(body) || (rp.n == 6 && body[rp.at:rp.at+6] != "return") {
+				return inlineEdit{}, false
+			}
+			body = body[:rp.at] + rp.text + body[rp.at+rp.n:]
+		}
+		lhs := asg.Lhs[0].(*ast.Ident).Name
+		tok := "="
+		if asg.Tok == token.DEFINE {
+			tok = ":="
+		}
+		text := fmt.Sprintf("var %s %s; %s:\nfor {\n//line %s:%d%sbreak %s\n}\n%s %s %s\n//line %s:%d", tmp, tstr, label, bodyFile, bodyLine+1, body, label, lhs, tok, tmp, file, endLine+1)
+		return inlineEdit{file: file, off: off, end: fset.Position(endStmt.End()).Offset, text: text}, true
+	}
+	if anywhere {
+		// `return` -> `break <label>` of a one-trip loop around the splice (no back edge: the loop body ends
+		// in a break); the lines keep their numbers
+		var rets []int
+		ast.Inspect(callee.Body, func(n ast.Node) bool {
+			if _, isLit := n.(*ast.FuncLit); isLit {
+				return false
+			}
+			if r, ok := n.(*ast.ReturnStmt); ok {
+				rets = append(rets, fset.Position(r.Pos()).Offset-(lb+1))
+			}
+			return true
+		})
+		if len(rets) > 0 {
+			label := fmt.Sprintf("_inl%d", fset.Position(stmt.Pos()).Offset)
+			sort.Sort(sort.Reverse(sort.IntSlice(rets)))
+			for _, o := range rets {
+				if o < 0 || o+6 > len(body) || body[o:o+6] != "return" {
+					return inlineEdit{}, false
+				}
+				body = body[:o] + "break " + label + body[o+6:]
+			}
+			if !strings.HasPrefix(body, "\n") {
+				return inlineEdit{}, false
+			}
+			text := fmt.Sprintf("%s:\nfor {\n//line %s:%d%sbreak %s\n}\n//line %s:%d", label, bodyFile, bodyLine+1, body, label, file, endLine+1)
+			return inlineEdit{file: file, off: fset.Position(stmt.Pos()).Offset, end: fset.Position(endStmt.End()).Offset, text: text}, true
+		}
+	}
 	text := "{" + body + "}"
 	if strings.HasPrefix(body, "\n") {
 		text = fmt.Sprintf("{\n//line %s:%d%s}\n//line %s:%d", bodyFile, bodyLine+1, body, file, endLine+1)
